@@ -50,7 +50,7 @@ func (n NodeInst) Len() *smt.Term         { return n.N.Len }
 func (n NodeInst) ConstStr() (string, bool) { return "", false }
 func (n NodeInst) MaxLen() int            { return n.N.MaxLen() }
 func (n NodeInst) Elem(i int) Inst        { return NodeInst{n.M, n.N.Elem(i)} }
-func (n NodeInst) Keys() []string         { if !n.N.CanHaveChildren() { return nil }; return n.N.Tm.Keys }
+func (n NodeInst) Keys() []string         { if !n.N.CanHaveChildren() { return nil }; return n.N.Keys() }
 func (n NodeInst) Has(k int) *smt.Term    { return n.N.Present[k] }
 func (n NodeInst) Val(k int) Inst         { return NodeInst{n.M, n.N.Val(k)} }
 func (n NodeInst) Count() *smt.Term       { return n.N.CountPresent() }
